@@ -203,6 +203,8 @@ def rules(ck, P):
             ck.check(okp, "R-COVER-VT", opn[0]["q"], "the advertised pyramid comes from the block index", "advertised pyramid does not come from the block index", ir.loc(opn[0]))
 
     pm_cover_rules(ck, P)
+    from . import c16 as _c16
+    _c16.pm_depth_rules(ck, P)
     comp.pyramid_union_rule(ck, P, "R-COVER-OPS")
     from . import boxalg
     boxalg.union_rule(ck, P, "R-UNION")
